@@ -14,6 +14,7 @@ import (
 	"k8s.io/apimachinery/pkg/api/resource"
 	metav1 "k8s.io/apimachinery/pkg/apis/meta/v1"
 	"k8s.io/apimachinery/pkg/types"
+	"k8s.io/client-go/tools/cache"
 	"k8s.io/kubernetes/pkg/scheduler/framework"
 	"k8s.io/utils/ptr"
 
@@ -203,6 +204,59 @@ func c19Amount(r *vRand, d int) int64 {
 	return int64(r.Intn(5))
 }
 
+// c19DelShape: the shape in which client-go hands a delete to the registered OnDelete: the object pointer, or
+// (a delete missed during a relist) cache.DeletedFinalStateUnknown{Key: ns/name, Obj} BY VALUE, about 2 in 5.
+// The Lean model does not distinguish the shapes: the same `rsv del` is expected to act identically.
+func c19DelShape(h *vHarness, r *vRand, obj interface{}) interface{} {
+	if !r.Chance(2, 5) {
+		h.Tag("del:plain")
+		return obj
+	}
+	h.Tag("del:tombstone")
+	key, _ := cache.MetaNamespaceKeyFunc(obj)
+	return cache.DeletedFinalStateUnknown{Key: key, Obj: obj}
+}
+
+// c19BadDelete delivers one degenerate delete event to BOTH registered entry points of a side (pod handler and
+// reservation handler): a tombstone whose Obj is of a foreign type / nil / a typed nil pointer / the other
+// informer's type, or a bare foreign object.  It must be ignored: no panic, the cache summary unchanged (no op
+// line is sent to the model; the next observation block is compared against the model's unchanged state).
+func c19BadDelete(h *vHarness, r *vRand, side *c19Side, key string) {
+	var forPod, forResv interface{}
+	v := r.Intn(5)
+	switch v {
+	case 0:
+		forPod = cache.DeletedFinalStateUnknown{Key: key, Obj: &corev1.Node{ObjectMeta: metav1.ObjectMeta{Name: c19NodeName(1)}}}
+		forResv = forPod
+	case 1:
+		forPod = cache.DeletedFinalStateUnknown{Key: key}
+		forResv = forPod
+	case 2:
+		forPod = cache.DeletedFinalStateUnknown{Key: key, Obj: (*corev1.Pod)(nil)}
+		forResv = cache.DeletedFinalStateUnknown{Key: key, Obj: (*schedulingv1alpha1.Reservation)(nil)}
+	case 3:
+		forPod = cache.DeletedFinalStateUnknown{Key: key, Obj: c19BuildR(&c19R{rid: 1, node: 1, decl: [c19D]int64{1000, 1 << 20, -1}}, nil)}
+		pod := c19BuildPod(1, [c19D]int64{1000, -1, -1})
+		pod.Spec.NodeName = c19NodeName(1)
+		apiext.SetReservationAllocated(pod, c19BuildR(&c19R{rid: 1, node: 1}, nil))
+		forResv = cache.DeletedFinalStateUnknown{Key: key, Obj: pod}
+	default:
+		forPod = &corev1.Node{ObjectMeta: metav1.ObjectMeta{Name: c19NodeName(1)}}
+		forResv = nil
+	}
+	before := c19Summary(side.cache)
+	panicked := h.Guard(func() {
+		side.ph.OnDelete(forPod)
+		side.rh.OnDelete(forResv)
+	})
+	after := c19Summary(side.cache)
+	if panicked || strings.Join(before, "|") != strings.Join(after, "|") {
+		h.Fail("C19:rsv-tombstone-badobj", "a delete event with a malformed payload (variant %d) panicked=%v or changed the cache: before %v after %v", v, panicked, before, after)
+	}
+	h.Tag("del:tombstone-badobj")
+	h.Tag(fmt.Sprintf("del:tombstone-badobj:%d", v))
+}
+
 type c19Ev struct {
 	kind int // 0 resv, 1 pod add, 2 pod same-assignment update
 	id   int
@@ -285,6 +339,15 @@ func TestVerifC19Rsv(t *testing.T) {
 		steps := r.Range(1, 10)
 		h.Tag(fmt.Sprintf("steps:%d", (steps+2)/3*3))
 		for s := 0; s < steps; s++ {
+			if r.Chance(1, 12) { // degenerate delete event on the live side: ignored
+				key := "default/pod-0"
+				if ex := existing(); len(ex) > 0 && r.Bool() {
+					key = "default/pod-" + strconv.Itoa(ex[r.Intn(len(ex))]) // an existing object's key does not make it valid
+				} else if r.Bool() {
+					key = c19RName(resvs[r.Intn(len(resvs))].rid)
+				}
+				c19BadDelete(h, r, live, key)
+			}
 			ex := existing()
 			k := r.Intn(10)
 			if len(ex) == 0 {
@@ -365,7 +428,7 @@ func TestVerifC19Rsv(t *testing.T) {
 				pid := ex[r.Intn(len(ex))]
 				p := pods[pid]
 				h.Op("rsv del %d", pid)
-				live.ph.OnDelete(p.obj)
+				live.ph.OnDelete(c19DelShape(h, r, p.obj)) // the registered entry point (type switch), either shape
 				delete(pods, pid)
 				h.Tag("op:del")
 			case k == 8: // pod terminates (object survives, phase Succeeded)
@@ -460,7 +523,14 @@ func TestVerifC19Rsv(t *testing.T) {
 			fresh := c19NewSide()
 			h.Op("rsv fresh")
 			seen := map[int]bool{}
-			for _, ev := range evs {
+			badAt := -1
+			if r.Chance(1, 8) {
+				badAt = r.Intn(len(evs))
+			}
+			for i, ev := range evs {
+				if i == badAt { // degenerate delete event on a fresh side: ignored
+					c19BadDelete(h, r, fresh, c19RName(resvs[0].rid))
+				}
 				switch ev.kind {
 				case 0:
 					var o *c19R
@@ -530,10 +600,47 @@ func TestVerifC19Rsv(t *testing.T) {
 		if strings.Join(s1, "|") != strings.Join(s2, "|") {
 			fail("C19:rsv-order-dependent", "first %v second %v", s1, s2)
 		}
+		// ---- epilogue, event shapes of a RESERVATION delete (the Lean model has no Reservation-delete op, so no op
+		// line / observation is emitted): two fresh caches rebuilt identically from the survivors (reservations
+		// first) get the delete of the same Reservation through the registered reservationEventHandler.OnDelete, one
+		// as the object pointer, one as DeletedFinalStateUnknown by value.  ORACLE (v): both end in the same state.
+		{
+			o := resvs[r.Intn(len(resvs))]
+			build := func() *c19Side {
+				sd := c19NewSide()
+				for _, x := range resvs {
+					sd.rh.OnAdd(c19BuildR(x, assignedTo(x.rid)), true)
+				}
+				for _, pid := range surv {
+					sd.ph.OnAdd(pods[pid].obj.DeepCopy(), true)
+				}
+				return sd
+			}
+			a, b := build(), build()
+			before := strings.Join(c19Summary(a.cache), "|")
+			robj := c19BuildR(o, assignedTo(o.rid))
+			key, _ := cache.MetaNamespaceKeyFunc(robj)
+			panicked := h.Guard(func() {
+				a.rh.OnDelete(robj.DeepCopy())
+				b.rh.OnDelete(cache.DeletedFinalStateUnknown{Key: key, Obj: robj.DeepCopy()})
+			})
+			sa, sb := strings.Join(c19Summary(a.cache), "|"), strings.Join(c19Summary(b.cache), "|")
+			if panicked || sa != sb {
+				h.Fail("C19:rsv-resv-delete-shape", "delete of reservation %d: panicked=%v, delivered as object -> %s, delivered as tombstone -> %s", o.rid, panicked, sa, sb)
+			}
+			if sa != before {
+				h.Tag("rdel:both-shapes:visible")
+			} else {
+				h.Tag("rdel:both-shapes:invisible")
+			}
+		}
 		h.End()
 	}
 	h.Close("1-3 Available reservations on 1-2 nodes (2-3 of cpu/memory/example.com/foo reserved, 1/4 allocate-once); history of 1-10 ops on a live cache " +
 		"(assign via real Plugin.Reserve+PreBind, bound/same-assignment update/delete/terminate pod events, reservation status updates); cut; surviving " +
 		"objects replayed twice into fresh caches in shuffled order with duplicate adds, same-assignment updates and reservation re-deliveries " +
-		"(1/12 of the cases: fully shuffled, pods may precede their reservation). Non-trivial: >=2 surviving pods share a reservation.")
+		"(1/12 of the cases: fully shuffled, pods may precede their reservation). Event shapes: pod deletes go to the registered podEventHandler.OnDelete, 2/5 as " +
+		"cache.DeletedFinalStateUnknown{Key,Obj} by value; 1/12 of the steps and 1/8 of the replays add a degenerate delete (tombstone with foreign-type / nil / typed-nil / " +
+		"other-informer Obj, bare foreign object) to both handlers that must change nothing; epilogue: one Reservation delete delivered to twin rebuilt caches as object and as tombstone must agree. " +
+		"Non-trivial: >=2 surviving pods share a reservation.")
 }
